@@ -427,3 +427,43 @@ theorem rangeComponents_triple (a b p : Str) (ha : clean a) (hb : clean b) (hp :
   rw [hs]
 
 end RTV.DtPeriod
+
+namespace RTV.DtPeriod
+open RTV.Cal RTV.DateUtils RTV.WF RTV.Periods
+
+theorem clean_natStr_unit (n u : Nat) (hu : u ≠ 40 ∧ u ≠ 41 ∧ u ≠ 44) : clean (natStr n ++ [u]) := by
+  intro c hc; simp only [List.mem_append, List.mem_singleton] at hc
+  rcases hc with hc | hc
+  · have := natStr_digits _ c hc; simp [isDigit] at this; omega
+  · omega
+
+theorem clean_append (a b : Str) (ha : clean a) (hb : clean b) : clean (a ++ b) := by
+  intro c hc; simp only [List.mem_append] at hc
+  rcases hc with hc | hc
+  · exact ha c hc
+  · exact hb c hc
+
+theorem clean_nil : clean [] := by intro c hc; simp at hc
+
+/-- what `luis_time_span` writes contains no parenthesis and no comma -/
+theorem clean_luisTimeSpan (n : Nat) : clean (luisTimeSpan n) := by
+  unfold luisTimeSpan
+  simp only
+  refine clean_append _ _ (clean_append _ _ (clean_append _ _ ?_ ?_) ?_) ?_
+  · intro c hc; simp at hc; omega
+  · split
+    · exact clean_natStr_unit _ 72 (by omega)
+    · exact clean_nil
+  · split
+    · exact clean_natStr_unit _ 77 (by omega)
+    · exact clean_nil
+  · split
+    · exact clean_natStr_unit _ 83 (by omega)
+    · exact clean_nil
+
+/-- the span between two proper points a non-negative number of seconds apart is `luis_time_span` of that number -/
+theorem luisSpan_of (b e : DateTime) (n : Nat) (h : val e - val b = (n : Int)) : luisSpan b e = luisTimeSpan n := by
+  unfold luisSpan
+  rw [diffSecs_val, h, luisTimeSpanI_nonneg]
+
+end RTV.DtPeriod
